@@ -38,6 +38,94 @@ theorem nextEpoch_keeps_champion_perm (o : EpochOpts W) (gen : Int) (p q p' p1 :
   nextEpoch_keeps_champion o gen q p' p1 ex rs rs1 rs' (hpq.sameShape.uidInv hu) (by rw [hpq.sameShape.ids]; exact hnd)
     (scZero_perm hpq hz) (refsOkPop_perm hpq hrefs) hprep h
 
+/-! ### every generation of a run, the evaluations may re-order inside the species -/
+
+/-- `EvalKeeps` with the order-insensitive shape relation: an evaluation between two epochs may assign fitness values
+    and the like AND re-order the organisms inside each species (`C02.SameShapePerm`), touches no genome, not the
+    registry, and reserves no champion clones.  `EvalKeeps` is the special case that keeps the order
+    (`EvalKeeps.toPerm`); `Generation.FillPopulationStatistics` is an instance (`evalKeepsPerm_of_speciesPerm`). -/
+def EvalKeepsPerm (q q' : Pop W) : Prop :=
+  C02.SameShapePerm q q' ∧ (∀ g ∈ C01.genomesOfPop q', g ∈ C01.genomesOfPop q) ∧ q'.reg = q.reg ∧ (ScZero q → ScZero q')
+
+/-- the old evaluator hypothesis implies the new one -/
+theorem EvalKeeps.toPerm {q q' : Pop W} (h : EvalKeeps q q') : EvalKeepsPerm q q' :=
+  ⟨h.1.toPerm, h.2.1, h.2.2.1, h.2.2.2⟩
+
+theorem EvalKeepsPerm.evalOkPerm {q q' : Pop W} (h : EvalKeepsPerm q q') : C02.EvalOkPerm q q' := ⟨h.1, h.2.1, h.2.2.1⟩
+
+theorem EvalKeepsPerm.refl (p : Pop W) : EvalKeepsPerm p p := ⟨C02.SameShapePerm.refl p, fun _ h => h, rfl, id⟩
+
+/-- evaluations compose (assign fitness, then `FillPopulationStatistics`, …) -/
+theorem EvalKeepsPerm.trans {p q r : Pop W} (h1 : EvalKeepsPerm p q) (h2 : EvalKeepsPerm q r) : EvalKeepsPerm p r :=
+  ⟨h1.1.trans h2.1, fun g hg => h1.2.1 g (h2.2.1 g hg), h2.2.2.1.trans h1.2.2.1, fun hz => h2.2.2.2 (h1.2.2.2 hz)⟩
+
+/-- **a within-species permutation is an admissible evaluation for C10** -/
+theorem evalKeepsPerm_of_speciesPerm {p q : Pop W} (h : C02.SpeciesPerm p q) : EvalKeepsPerm p q :=
+  ⟨h.sameShape, h.evalOkPerm.2.1, h.evalOkPerm.2.2, scZero_perm h⟩
+
+/-- the C10 run invariant survives an evaluation that re-orders inside the species (`champInv_eval` for the
+    permutation form) -/
+theorem champInv_evalPerm (q q' : Pop W) (he : EvalKeepsPerm q q') (h : ChampInv q) : ChampInv q' := by
+  obtain ⟨hsh, hg, hreg, hsc⟩ := he
+  obtain ⟨hu', hs'⟩ := C02.sameShapePerm_inv q q' hsh h.uid h.spid
+  exact ⟨hu', hs', hsc h.sc, by rw [hreg]; exact h.pool.subset hg⟩
+
+/-- **C10 over whole runs, evaluations may re-order inside the species.**  `runEpochs_keeps_champions` with
+    `EvalKeepsPerm` in place of `EvalKeeps` (which it implies: `EvalKeeps.toPerm`): starting from a population that
+    satisfies the invariant, in EVERY generation of a run of any length - evaluate (assign fitness, re-order the
+    species lists as `FillPopulationStatistics` does), turn over, evaluate, turn over, … - the champion of every species
+    whose quota exceeds five (the head of the list AFTER the epoch's own sort of the population that entered it) is
+    preserved unmodified into the next generation; the invariant holds for every population entering an epoch and for
+    the final one, which again holds exactly `PopSize` organisms partitioned into non-empty species. -/
+theorem runEpochs_keeps_champions_perm (o : EpochOpts W) (evs : List (Pop W → Pop W)) (gen : Int) (p p' : Pop W) (rs rs' : List Nat)
+    (hev : ∀ ev ∈ evs, ∀ q, EvalKeepsPerm q (ev q)) (hinv : ChampInv p)
+    (h : C02.runEpochs o evs gen p rs = .ok (p', rs')) :
+    ChampInv p' ∧ (runSteps o evs gen p rs).length = evs.length ∧
+    (∀ st ∈ runSteps o evs gen p rs, ChampInv st.1 ∧ KeepsChampions o st.1 st.2.1 st.2.2) ∧
+    (evs ≠ [] → p'.organisms.length = o.popSize ∧ p'.organisms.Nodup ∧ p'.organisms = C02.orgUids p'.species ∧
+      ∀ s ∈ p'.species, s.orgs ≠ []) := by
+  have hinvC02 := C02.runEpochs_inv_perm o evs gen p p' rs rs' (fun ev he q => (hev ev he q).1) hinv.uid hinv.spid h
+  refine ⟨?_, ?_, ?_, fun hne => by obtain ⟨a1, a2, a3, a4, _⟩ := hinvC02.2.2.2 hne; exact ⟨a1, a2, a3, a4⟩⟩
+  all_goals
+    induction evs generalizing gen p rs with
+    | nil =>
+      simp only [C02.runEpochs, Except.ok.injEq, Prod.mk.injEq] at h
+      obtain ⟨rfl, _⟩ := h
+      first
+        | exact hinv
+        | rfl
+        | (intro st hst; cases hst)
+    | cons ev evs ih =>
+      simp only [C02.runEpochs] at h
+      split at h
+      · cases h
+      · rename_i q1 rs1 h1
+        have hinv0 := champInv_evalPerm p (ev p) (hev ev (by simp) p) hinv
+        have hinv1 := nextEpoch_champInv o gen (ev p) q1 rs rs1 hinv0 h1
+        have hinvC02' := C02.runEpochs_inv_perm o evs (gen + 1) q1 p' rs1 rs' (fun e he q => (hev e (by simp [he]) q).1) hinv1.uid hinv1.spid h
+        have ih' := ih (gen + 1) q1 rs1 (fun e he => hev e (by simp [he])) hinv1 h hinvC02'
+        first
+          | exact ih'
+          | (simp only [runSteps, h1, List.length_cons]; rw [ih'])
+          | (intro st hst
+             simp only [runSteps, h1, List.mem_cons] at hst
+             rcases hst with rfl | hst
+             · refine ⟨hinv0, ?_⟩
+               intro p1 ex rs1' hprep
+               exact nextEpoch_keeps_champion o gen (ev p) q1 p1 ex rs rs1' rs1 hinv0.uid hinv0.spid.nodup hinv0.sc
+                 (refsOk_of_pool _ hinv0.pool) hprep h1
+             · exact ih' st hst)
+
+/-- the old theorem is an instance: `runEpochs_keeps_champions` from `runEpochs_keeps_champions_perm` -/
+theorem runEpochs_keeps_champions_of_perm (o : EpochOpts W) (evs : List (Pop W → Pop W)) (gen : Int) (p p' : Pop W) (rs rs' : List Nat)
+    (hev : ∀ ev ∈ evs, ∀ q, EvalKeeps q (ev q)) (hinv : ChampInv p)
+    (h : C02.runEpochs o evs gen p rs = .ok (p', rs')) :
+    ChampInv p' ∧ (runSteps o evs gen p rs).length = evs.length ∧
+    (∀ st ∈ runSteps o evs gen p rs, ChampInv st.1 ∧ KeepsChampions o st.1 st.2.1 st.2.2) ∧
+    (evs ≠ [] → p'.organisms.length = o.popSize ∧ p'.organisms.Nodup ∧ p'.organisms = C02.orgUids p'.species ∧
+      ∀ s ∈ p'.species, s.orgs ≠ []) :=
+  runEpochs_keeps_champions_perm o evs gen p p' rs rs' (fun ev he q => (hev ev he q).toPerm) hinv h
+
 end GoNeat.C10
 
 namespace GoNeat.C09
